@@ -59,18 +59,15 @@ theorem printf_width_diverges_orig (fuel : Nat) (s : List Char) :
 
 /-! ## the characters are those ISO C printf produces -/
 
-/-
-  FULL STATEMENT (false on the tree, see the two `_witness` theorems):
-     ∀ fmt args out, isoFormat igrisPtr fmt args = some out →
-                      printf fmt args = .done out out.length
-  Proved part: every format/argument list outside the two recorded input
-  classes (`isoFormatExcl` is `isoFormat` made undefined on exactly those):
-    C06-alt-zero   `#` flag with a zero value: x, X with any precision; o when
-                   the effective precision is 1
-    C06-c-nul      %c of a NUL character
--/
-theorem printf_matches_iso_partial (fmt : List Char) (args : List Arg) (out : List Char)
-    (h : isoFormatExcl igrisPtr fmt args = some out) :
+/-- THE FULL STATEMENT (since the `fix:` commits 8be88bc and ff2efab of the
+extension round it holds without exclusion): for every format and argument list
+on which ISO C defines the output — `isoFormat … = some out` — `__printf` hands
+exactly those characters to the callback and returns their number (in
+particular: no fault, no wrong-type `va_arg`, every argument consumed as ISO
+says).  Which formats these are is the subject of `iso_defined_of_grammar`
+below. -/
+theorem printf_matches_iso (fmt : List Char) (args : List Arg) (out : List Char)
+    (h : isoFormat igrisPtr fmt args = some out) :
     printf fmt args = .done out out.length := by
   obtain ⟨pc, hl⟩ := loop_iso _ fmt args out h (fmt.length + 1) [] 0 (Nat.lt_succ_self _)
   have hl' : printf fmt args = .done out pc := by simpa [printf] using hl
@@ -81,23 +78,40 @@ theorem isoFormatExcl_sub (pfmt : Nat → List Char) (fmt : List Char) (args : L
     (h : isoFormatExcl pfmt fmt args = some out) : isoFormat pfmt fmt args = some out :=
   isoAux_strict_sub pfmt _ fmt args out h
 
-/-- C06-alt-zero: `%#x` of 0 — ISO `0`, igris `0x0` -/
+/-- the statement of the first round (outside the two input classes that were
+recorded findings then); now a corollary of `printf_matches_iso` -/
+theorem printf_matches_iso_partial (fmt : List Char) (args : List Arg) (out : List Char)
+    (h : isoFormatExcl igrisPtr fmt args = some out) :
+    printf fmt args = .done out out.length :=
+  printf_matches_iso fmt args out (isoFormatExcl_sub _ _ _ _ h)
+
+/-- former finding C06-alt-zero, `%#x` of 0: ISO `0`; print_i's prefix as it
+was (`pfxOrig`, chosen without looking at the value) is `0x`; the repaired code
+prints `0` -/
 theorem printf_matches_iso_witness_alt_zero :
     isoFormat igrisPtr "%#x".toList [.int 0] = some "0".toList ∧
-    printf "%#x".toList [.int 0] = .done "0x0".toList 3 := by
-  constructor <;> decide
+    pfxOrig { spec := true } 16 = "0x".toList ∧
+    printf "%#x".toList [.int 0] = .done "0".toList 1 := by
+  refine ⟨?_, ?_, ?_⟩ <;> decide
 
-/-- C06-alt-zero: `%#o` of 0 — ISO `0`, igris `00` -/
+/-- former finding C06-alt-zero, `%#o` of 0: ISO `0`; the old prefix `0` in
+front of the digit `0` gave `00`; the repaired code prints `0`, and `%#.0o`
+(no digit at all) still gets the `0` -/
 theorem printf_matches_iso_witness_alt_zero_o :
     isoFormat igrisPtr "%#o".toList [.int 0] = some "0".toList ∧
-    printf "%#o".toList [.int 0] = .done "00".toList 2 := by
-  constructor <;> decide
+    pfxOrig { spec := true } 8 = "0".toList ∧
+    printf "%#o".toList [.int 0] = .done "0".toList 1 ∧
+    printf "%#.0o".toList [.int 0] = .done "0".toList 1 := by
+  refine ⟨?_, ?_, ?_, ?_⟩ <;> decide
 
-/-- C06-c-nul: `%c` of NUL — ISO one character (the NUL), igris none -/
+/-- former finding C06-c-nul, `%c` of NUL: ISO one character (the NUL); print_s
+without OPS_SPEC_CHAR (`printCOrig`) measured it with strlen and emitted
+nothing; the repaired code emits it -/
 theorem printf_matches_iso_witness_c_nul :
     isoFormat igrisPtr "%c".toList [.int 0] = some [NUL] ∧
-    printf "%c".toList [.int 0] = .done [] 0 := by
-  constructor <;> decide
+    printCOrig 0 0 0 {} = some ([], 0) ∧
+    printf "%c".toList [.int 0] = .done [NUL] 1 := by
+  refine ⟨?_, ?_, ?_⟩ <;> decide
 
 /-! ## %p: 0x followed by hex digits that parse back to the pointer -/
 
@@ -128,26 +142,36 @@ its first `precision` bytes: whatever lies behind `pre` is never consulted and
 the call succeeds when only `pre` is readable (a read behind the allocation is
 `none` in the model) -/
 theorem print_s_reads (pre rest : List Char) (width maxLen : Nat) (ops : Ops)
-    (h : NUL ∈ pre ∨ (ops.prec = true ∧ maxLen ≤ pre.length)) :
+    (h : (ops.chr = false ∧ (NUL ∈ pre ∨ (ops.prec = true ∧ maxLen ≤ pre.length))) ∨
+         (ops.chr = true ∧ pre ≠ [])) :
     (printS pre width maxLen ops).isSome ∧
       printS (pre ++ rest) width maxLen ops = printS pre width maxLen ops := by
   have hsome : (printS pre width maxLen ops).isSome := by
-    have hlen : (if ops.prec = true then strnlen pre (maxLen : Int).toNat else strlen pre).isSome := by
-      cases hp : ops.prec
-      · simp only [Bool.false_eq_true, if_false]
-        rcases h with h | ⟨h, _⟩
-        · exact strlen_some_of_mem pre h
-        · rw [hp] at h; cases h
-      · simp only [if_true, Int.toNat_natCast]
-        have hok : NUL ∈ pre.take maxLen ∨ maxLen ≤ pre.length := by
-          rcases h with h | ⟨_, h⟩
-          · by_cases hle : maxLen ≤ pre.length
-            · exact Or.inr hle
-            · left; rw [List.take_of_length_le (by omega)]; exact h
-          · exact Or.inr h
-        rw [strnlen_of_ok pre maxLen hok]; rfl
+    have hlen : (if ops.chr = true then (if 1 ≤ pre.length then some 1 else none)
+        else if ops.prec = true then strnlen pre (maxLen : Int).toNat else strlen pre).isSome := by
+      rcases h with ⟨hc, h⟩ | ⟨hc, hne⟩
+      · simp only [hc, Bool.false_eq_true, if_false]
+        cases hp : ops.prec
+        · simp only [Bool.false_eq_true, if_false]
+          rcases h with h | ⟨h, _⟩
+          · exact strlen_some_of_mem pre h
+          · rw [hp] at h; cases h
+        · simp only [if_true, Int.toNat_natCast]
+          have hok : NUL ∈ pre.take maxLen ∨ maxLen ≤ pre.length := by
+            rcases h with h | ⟨_, h⟩
+            · by_cases hle : maxLen ≤ pre.length
+              · exact Or.inr hle
+              · left; rw [List.take_of_length_le (by omega)]; exact h
+            · exact Or.inr h
+          rw [strnlen_of_ok pre maxLen hok]; rfl
+      · have : 1 ≤ pre.length := by
+          cases pre with
+          | nil => exact absurd rfl hne
+          | cons a as => simp
+        simp [hc, this]
     unfold printS
-    cases hl : (if ops.prec = true then strnlen pre (maxLen : Int).toNat else strlen pre) with
+    cases hl : (if ops.chr = true then (if 1 ≤ pre.length then some 1 else none)
+        else if ops.prec = true then strnlen pre (maxLen : Int).toNat else strlen pre) with
     | none => rw [hl] at hlen; cases hlen
     | some n => rfl
   refine ⟨hsome, ?_⟩
@@ -214,6 +238,97 @@ theorem vfdprintf_spec (limit : Option Nat) (err : Int) (fmt : List Char) (args 
       simp at h; exact ⟨h.1.symm, h.2.symm⟩
   · cases h
 
+/-- the variadic entry points only forward their argument list: `sprintf` is
+`vsprintf`, `fdprintf` is `vfdprintf`, `snprintf` is `vsnprintf` (each is
+`va_start; ret = v…(…, args); va_end; return ret;`), so the specifications
+carry over -/
+theorem sprintf_spec (fmt : List Char) (args : List Arg) (buf : List Char) (ret : Int)
+    (h : sprintf fmt args = some (buf, ret)) :
+    ∃ out, printf fmt args = .done out ret ∧ buf = out ++ [NUL] ∧ ret = out.length :=
+  vsprintf_spec fmt args buf ret h
+
+theorem fdprintf_spec (limit : Option Nat) (err : Int) (fmt : List Char) (args : List Arg)
+    (written : List Char) (ret : Int) (h : fdprintf limit err fmt args = some (written, ret)) :
+    ∃ out, printf fmt args = .done out out.length ∧
+      ((∀ l, limit = some l → out.length ≤ l) → written = out ∧ ret = out.length) ∧
+      (∀ l, limit = some l → l < out.length → written = out.take l ∧ ret = err) :=
+  vfdprintf_spec limit err fmt args written ret h
+
+/-- `vsprintf`/`sprintf` on a destination of known extent `mem`: the call is
+safe exactly when the output and its terminator fit (`|out| < |mem|`); then the
+memory is the output, a NUL, and the old bytes behind it; otherwise the callback
+stores behind the allocation (`none`) -/
+theorem vsprintf_mem_spec (mem fmt : List Char) (args : List Arg) (out : List Char) (pc : Int)
+    (h : printf fmt args = .done out pc) :
+    (out.length < mem.length →
+        vsprintfMem mem fmt args = some (out ++ NUL :: mem.drop (out.length + 1), (out.length : Int))) ∧
+    (mem.length ≤ out.length → vsprintfMem mem fmt args = none) := by
+  have hc := printf_count _ _ _ _ h
+  subst hc
+  rw [vsprintfMem_done mem fmt args out _ h]
+  constructor
+  · intro hl; rw [if_pos hl]
+  · intro hl; rw [if_neg (by omega)]
+
+/-- ISO C 7.21.6.5/7.21.6.12 for `vsnprintf(s, n, …)` on a destination `mem`
+that has at least the `n` bytes the caller announces: nothing is written when
+`n = 0`; otherwise the memory becomes the first `n-1` characters of the output,
+a NUL, and the OLD bytes behind that NUL (in particular everything from offset
+`n` on is untouched); the value returned is the length of the WHOLE output.
+The call never faults, however long the output is. -/
+theorem vsnprintf_spec (mem : List Char) (n : Nat) (fmt : List Char) (args : List Arg) (out : List Char) (pc : Int)
+    (h : printf fmt args = .done out pc) (hn : n ≤ mem.length) :
+    vsnprintf mem n fmt args
+      = some (if n = 0 then mem else out.take (n - 1) ++ NUL :: mem.drop (min (n - 1) out.length + 1),
+              (out.length : Int)) := by
+  have hc := printf_count _ _ _ _ h
+  subst hc
+  exact vsnprintf_done mem n fmt args out _ h hn
+
+/-- the same for the variadic `snprintf` -/
+theorem snprintf_spec (mem : List Char) (n : Nat) (fmt : List Char) (args : List Arg) (out : List Char) (pc : Int)
+    (h : printf fmt args = .done out pc) (hn : n ≤ mem.length) :
+    snprintf mem n fmt args
+      = some (if n = 0 then mem else out.take (n - 1) ++ NUL :: mem.drop (min (n - 1) out.length + 1),
+              (out.length : Int)) :=
+  vsnprintf_spec mem n fmt args out pc h hn
+
+/-- consequences a caller relies on: the extent of the memory is unchanged and
+no byte at offset `n` or beyond is modified -/
+theorem snprintf_stays_inside (mem : List Char) (n : Nat) (fmt : List Char) (args : List Arg) (out : List Char)
+    (pc : Int) (h : printf fmt args = .done out pc) (hn : n ≤ mem.length) :
+    ∃ buf : List Char, snprintf mem n fmt args = some (buf, (out.length : Int)) ∧ buf.length = mem.length ∧
+      buf.drop n = mem.drop n := by
+  rw [snprintf_spec mem n fmt args out pc h hn]
+  refine ⟨_, rfl, ?_, ?_⟩
+  · split
+    · rfl
+    · simp only [List.length_append, List.length_cons, List.length_take, List.length_drop]; omega
+  · split
+    · rfl
+    · rename_i hn0
+      have hk : (out.take (n - 1)).length = min (n - 1) out.length := by simp [List.length_take]
+      exact drop_after_term _ mem _ n hk (by omega)
+
+/-- ISO level: on every ISO-defined format `snprintf` leaves the ISO output,
+cut to `n-1` characters and terminated, and returns the untruncated length -/
+theorem snprintf_matches_iso (mem : List Char) (n : Nat) (fmt : List Char) (args : List Arg) (out : List Char)
+    (h : isoFormat igrisPtr fmt args = some out) (hn : n ≤ mem.length) (hpos : 0 < n) :
+    snprintf mem n fmt args
+      = some (out.take (n - 1) ++ NUL :: mem.drop (min (n - 1) out.length + 1), (out.length : Int)) := by
+  rw [snprintf_spec mem n fmt args out _ (printf_matches_iso fmt args out h) hn, if_neg (by omega)]
+
+/-- historical (before `fix: snprintf honours its size argument`): `snprintf`
+called `vsprintf` and ignored `maxlen` — `snprintf(buf, 4, "%d", 123456)` on a
+4-byte buffer stores behind it; the repaired code leaves `123\0` and returns 6.
+Already `snprintf(buf, 0, "")` wrote the terminator into a buffer of size 0. -/
+theorem snprintf_overflow_orig_witness :
+    snprintfOrig ['x', 'x', 'x', 'x'] 4 "%d".toList [.int 123456] = none ∧
+    snprintfOrig [] 0 [] [] = none ∧
+    snprintf ['x', 'x', 'x', 'x'] 4 "%d".toList [.int 123456] = some (['1', '2', '3', NUL], 6) ∧
+    snprintf [] 0 [] [] = some ([], 0) := by
+  refine ⟨?_, ?_, ?_, ?_⟩ <;> decide
+
 /-! ## non-vacuity: the hypotheses above are satisfiable on non-trivial inputs -/
 
 -- a format with literal text, flags, `*` width, precision, length modifier, string with precision
@@ -226,7 +341,21 @@ example : printf "a=%-*.3lld|%+05d|%.2s|%#x".toList
         [.int 8, .long (BitVec.ofInt 64 (-42)), .int 7, .str ['x', 'y', 'z'], .int 255]
       = .done "a=-042    |+0007|xy|0xff".toList 24 := by decide
 
--- print_s_reads: an unterminated two-byte array with precision 2
-example : (NUL ∈ ['a', 'b'] ∨ (({ prec := true } : Ops).prec = true ∧ 2 ≤ ['a', 'b'].length)) := by decide
+-- print_s_reads: an unterminated two-byte array with precision 2; the two-byte array of %c
+example : ((({ prec := true } : Ops).chr = false ∧
+    (NUL ∈ ['a', 'b'] ∨ (({ prec := true } : Ops).prec = true ∧ 2 ≤ ['a', 'b'].length))) ∨
+    (({ prec := true } : Ops).chr = true ∧ ['a', 'b'] ≠ [])) := by decide
+example : ((({ chr := true } : Ops).chr = false ∧
+    (NUL ∈ [NUL, NUL] ∨ (({ chr := true } : Ops).prec = true ∧ 2 ≤ [NUL, NUL].length))) ∨
+    (({ chr := true } : Ops).chr = true ∧ [NUL, NUL] ≠ [])) := by decide
+
+-- vsnprintf_spec / snprintf_matches_iso: a truncating call
+example : printf "%s=%d".toList [.str ['a', 'b', NUL], .int 7] = .done "ab=7".toList 4 := by decide
+example : snprintf ['x', 'x', 'x', 'y', 'z'] 3 "%s=%d".toList [.str ['a', 'b', NUL], .int 7]
+      = some (['a', 'b', NUL, 'y', 'z'], 4) := by decide
+
+-- printf_matches_iso on the former finding classes
+example : isoFormat igrisPtr "[%#x|%#5o|%-3c]".toList [.int 0, .int 0, .int 0]
+      = some ['[', '0', '|', ' ', ' ', ' ', ' ', '0', '|', NUL, ' ', ' ', ']'] := by decide
 
 end Igris.C06
